@@ -270,10 +270,10 @@ func (u *Unit) execAppend(s *State, f *Frame, x *ssa.Call, args []Value) []*Stat
 		if addIsStr {
 			src = Select(w.StrChars(add), Sub(k, w.SLen(sl)))
 		} else {
-			src = Select(Select(h, w.SRef(add)), Add(w.SOff(add), Sub(k, w.SLen(sl))))
+			src = Select(Select(h, w.SRef(add)), w.At(w.SOff(add), Sub(k, w.SLen(sl))))
 		}
 		st.assume(Forall([]*Term{k}, Implies(And(Le(IntLit(0), k), Lt(k, newLen)),
-			Eq(Select(nrow, k), Ite(Lt(k, w.SLen(sl)), Select(oldrow, Add(w.SOff(sl), k)), src))), Select(nrow, k)))
+			Eq(Select(nrow, k), Ite(Lt(k, w.SLen(sl)), Select(oldrow, w.At(w.SOff(sl), k)), src))), Select(nrow, k)))
 		u.setHeap(st, key, Store(h, ref, nrow))
 		of.Vals[x] = Value{T: w.MkSlice(ref, IntLit(0), newLen, ncap), Ty: x.Type()}
 	}
